@@ -609,10 +609,10 @@ Proof. intros H G Q. destruct (H Q) as [Q1 F1]. split; [exact Q1|]. split; [exac
 Lemma typed_decl_sn s d s' : parse_typed_decl B s = Ok d s' -> SN s s'.
 Proof.
   unfold parse_typed_decl. intro H.
-  destruct (p_type B (adv (adv (snd (passert T_IDENT s))))) as [t s2| |] eqn:P; try discriminate H.
+  destruct (p_type B (adv (snd (passert T_COLON (adv (snd (passert T_IDENT s))))))) as [t s2| |] eqn:P; try discriminate H.
   apply p_type_sn in P.
-  assert (N : SN s (adv (adv (snd (passert T_IDENT s))))).
-  { eapply SN_trans; [|apply SN_adv]. eapply SN_trans; [|apply SN_adv]. apply SN_passert. }
+  assert (N : SN s (adv (snd (passert T_COLON (adv (snd (passert T_IDENT s))))))).
+  { eapply SN_trans; [|apply SN_adv]. eapply SN_trans; [|apply SN_passert]. eapply SN_trans; [|apply SN_adv]. apply SN_passert. }
   destruct t; injection H as ? ?; subst; [eapply SN_trans; eassumption|apply SN_err].
 Qed.
 
